@@ -278,6 +278,8 @@ func scalarSort(t types.Type) string {
 		return "Coins"
 	case "time.Duration":
 		return "Int"
+	case modTypes + ".FundraisingHooks":
+		return "Ref" // a listener of another module: an opaque reference with identity (nilref = the nil interface)
 	}
 	if b, ok := t.Underlying().(*types.Basic); ok {
 		switch {
@@ -412,8 +414,8 @@ func mapLeaves(v Val, f func(Sc) Val) Val {
 			el = mapLeaves(y.Elem, f)
 		}
 		return Sl{0, tm(f(Sc{T: y.Len, Sort: "Int"})), el}
-	case Opq, Coll, nil:
-		return v
+	case Opq, Coll, IfaceArr, nil:
+		return v // (IfaceArr: the argument list of a variadic fmt call, never read back)
 	case Er:
 		n := f(Sc{T: y.Nil, Sort: "Bool"}).(Sc)
 		k := f(Sc{T: y.Kind, Sort: "Int"}).(Sc)
@@ -427,6 +429,12 @@ func mapLeaves(v Val, f func(Sc) Val) Val {
 }
 
 func zipLeaves(a, b Val, f func(a, b Sc) Val) Val {
+	if _, ok := b.(IfaceArr); ok {
+		return b // the argument list of a variadic fmt call: never read back
+	}
+	if _, ok := a.(IfaceArr); ok {
+		return b
+	}
 	switch y := a.(type) {
 	case Sc:
 		bs, ok := b.(Sc)
